@@ -1,10 +1,28 @@
 /* stub_module.c - C20 stub: one source, built once, copied under several
  * names.  Dependencies come from the environment (VERIF_DEPS_<name> =
  * comma list); every lifecycle event is reported to the host. */
+#define _GNU_SOURCE 1
 #include "src/common.h"
 
 extern void sim_note(const char *fmt, ...);
 static char myname[64];
+
+#ifdef STUB_NO_CTOR
+/* A module need not export a constructor either: this variant learns its name from the file it was loaded from. */
+#include <dlfcn.h>
+static void whoami(void)
+{
+    Dl_info di;
+    const char *b;
+    if (myname[0] || !dladdr((void *)whoami, &di) || !di.dli_fname)
+        return;
+    b = strrchr(di.dli_fname, '/');
+    snprintf(myname, sizeof myname, "%s", b ? b + 1 : di.dli_fname);
+    if (strrchr(myname, '.'))
+        *strrchr(myname, '.') = 0;
+}
+#else
+static void whoami(void) { }
 
 void module_constructor(const char name[])
 {
@@ -47,14 +65,31 @@ void module_constructor(const char name[])
         }
         free(c);
     }
+    /* the other two declarations of the documented contract: "I am a back-end provider of <other> and must be
+     * unloaded after it" (the other module then depends on this one), and "I am a back-end of the core" */
+    snprintf(key, sizeof key, "VERIF_ANTI_%s", name);
+    d = getenv(key);
+    if (d && *d) {
+        char *c = strdup(d), *t, *sv;
+        for (t = strtok_r(c, ",", &sv); t; t = strtok_r(NULL, ",", &sv)) {
+            module_antidepends(strdup(t), NULL);
+            sim_note("EV anti-return %s %s", name, t);
+        }
+        free(c);
+    }
+    snprintf(key, sizeof key, "VERIF_BACKEND_%s", name);
+    if (getenv(key))
+        module_is_backend();
     sim_note("EV ctor-end %s", name);
 }
+#endif
 
 /* Both hooks are optional for a module (src/module.c looks them up with dlsym): the variants built with
  * -DSTUB_NO_POSTINIT / -DSTUB_NO_DTOR do not export them. */
 #ifndef STUB_NO_POSTINIT
 void module_post_init(struct module *self)
 {
+    whoami();
     sim_note("EV postinit %s %s", myname, module_get_name(self));
 }
 #endif
@@ -62,6 +97,7 @@ void module_post_init(struct module *self)
 #ifndef STUB_NO_DTOR
 void module_destructor(void)
 {
+    whoami();
     sim_note("EV dtor %s", myname);
 }
 #endif
